@@ -30,7 +30,7 @@ def damage(text, rng):
 def doc_cases(ctx, shapes, per_shape, prefix="d"):
     cases = []
     for i, a in enumerate(shapes):
-        doc = plssdoc.concretise(a, ctx.rng)
+        doc = plssdoc.concretise(a, ctx.rng, vary_tr=True)
         for k in range(per_shape):
             text = damage(plssdoc.render_doc(doc, ctx.rng), ctx.rng)
             words = text.split(" ")
